@@ -14,5 +14,6 @@ import mir
 txt = mir.dump_mir()          # warms .cache/target-mir (nightly build of the dependencies)
 print('MIR dump ok: %d lines' % txt.count('\n'))
 PY
-python3-vt lib/kani.py --warm
+# the Kani slots are build caches: a slot that cannot be warmed now is built by the first check that needs it
+python3-vt lib/kani.py --warm || echo "warning: not every Kani slot could be warmed (checks will build what is missing)"
 echo "setup done"
